@@ -32,8 +32,8 @@ js::Value tool_variant_json(const Plan &p) {
 void tool_build(const Plan &p, Case &c) {
   bool two = (p.variant & V_TWO) && p.chain >= 2;
   double box = 1.7 + 0.1 * (double)(p.case_seed % 6);
-  c.files["topol.xml"] = gen_topology_xml(p, two);
-  std::string trj = p.fmt == 0 ? "traj.vdump" : "traj.vgro";
+  c.files["topol.xml"] = gen_topology_xml(p, two, box);
+  std::string trj = trj_file(p);
   c.files[trj] = gen_trajectory(p, box, p.nmol * p.chain);
   std::ostringstream o;
   o << "<cg>\n <non-bonded>\n  <name>A-A</name>\n  <type1>A</type1>\n  <type2>A</type2>\n  <min>0.0</min>\n  <max>0.5</max>\n  <step>0.05</step>\n </non-bonded>\n";
